@@ -106,7 +106,12 @@ structure Cfg where
   /-- `context.timezone` (minutes) -/
   tz : Option Int
 
-abbrev Res := Except Err (Val × Env × Heap)
+/-- a raised exception together with the caller-visible state at the moment it leaves the
+expression: the caller's dict and the caller's objects as they are THEN (Python: the exception
+propagates, the objects stay as the partial evaluation left them) -/
+abbrev Fail := Err × Env × Heap
+
+abbrev Res := Except Fail (Val × Env × Heap)
 
 /-! ### value-level primitives (shared with the specification) -/
 
@@ -219,7 +224,7 @@ variable (ev : Expr → Env → Heap → Res)
 
 /-- `get_operands`: `None` (→ empty result) when an operand is the empty sequence; the second
 operand is not evaluated when the first one is empty or too long -/
-def operands (a b : Expr) (ρ : Env) (h : Heap) : Except Err (Option (Item × Item) × Env × Heap) :=
+def operands (a b : Expr) (ρ : Env) (h : Heap) : Except Fail (Option (Item × Item) × Env × Heap) :=
   match ev a ρ h with
   | .error e => .error e
   | .ok (va, ρ1, h1) =>
@@ -232,8 +237,8 @@ def operands (a b : Expr) (ρ : Env) (h : Heap) : Except Err (Option (Item × It
         match vb with
         | [] => .ok (none, ρ2, h2)
         | [y] => .ok (some (x, y), ρ2, h2)
-        | _ => .error .type
-    | _ => .error .type
+        | _ => .error (.type, ρ2, h2)
+    | _ => .error (.type, ρ1, h1)
 
 /-- body of the `for` loop: `context.variables.update(...)`, `yield from self[-1].select(copy(context))` -/
 def forLoop (x : Name) (body : Expr) : List Item → Env → Heap → Res
@@ -248,18 +253,18 @@ def forLoop (x : Name) (body : Expr) : List Item → Env → Heap → Res
 
 /-- body of `some` / `every`: first decisive tuple wins -/
 def quantLoop (isSome : Bool) (x : Name) (body : Expr) : List Item → Env → Heap →
-    Except Err (Bool × Env × Heap)
+    Except Fail (Bool × Env × Heap)
   | [], ρc, h => .ok (!isSome, ρc, h)
   | it :: rest, ρc, h =>
     match ev body ((x, [it]) :: ρc) h with
     | .error e => .error e
     | .ok (v, ρc1, h1) =>
       match ebv v with
-      | .error e => .error e
+      | .error e => .error (e, ρc1, h1)
       | .ok b => if b == isSome then .ok (isSome, ρc1, h1) else quantLoop isSome x body rest ρc1 h1
 
 /-- `arguments = [tk.evaluate(context) for tk in tokens]` -/
-def evalArgs : List Expr → Env → Heap → Except Err (List Val × Env × Heap)
+def evalArgs : List Expr → Env → Heap → Except Fail (List Val × Env × Heap)
   | [], ρ, h => .ok ([], ρ, h)
   | a :: as, ρ, h =>
     match ev a ρ h with
@@ -284,25 +289,25 @@ def calleeEnv (c : Cfg) (ps : List Name) (args : List Val) (cap ρ : Env) : Env 
 
 /-- `_InlineFunction.__call__`: `context = copy(context)`; the dict is the caller's dict
 (pinned) or a copy of it (F05 repaired); `update(self.variables)`; parameters bound; body
-evaluated.  Returns the caller's dict as the caller sees it afterwards. -/
+evaluated.  Returns the caller's dict as the caller sees it afterwards — also when the body raises. -/
 def applyFn (c : Cfg) (ps : List Name) (body : Expr) (cap : Env) (args : List Val)
     (ρ : Env) (h : Heap) : Res :=
-  if ps.length ≠ args.length then .error .type else
+  if ps.length ≠ args.length then .error (.type, ρ, h) else
   match ev body (calleeEnv c ps args cap ρ) h with
-  | .error e => .error e
+  | .error (e, ρ', h') => .error (e, if c.q.callCopies then ρ else dedupEnv ρ', h')
   | .ok (v, ρ', h') => .ok (v, if c.q.callCopies then ρ else dedupEnv ρ', h')
 
 end
 
 def eval (c : Cfg) : Nat → Expr → Env → Heap → Res
-  | 0, _, _, _ => .error .fuel
+  | 0, _, ρ, h => .error (.fuel, ρ, h)
   | n + 1, e, ρ, h =>
     match e with
     | .int k => .ok ([.int k], ρ, h)
     | .var x =>
       match ρ.lookup x with
       | some v => .ok (v, ρ, h)
-      | none => .error .unbound
+      | none => .error (.unbound, ρ, h)
     | .empty => .ok ([], ρ, h)
     | .paren e => eval c n e ρ h
     | .seq a b =>
@@ -319,7 +324,7 @@ def eval (c : Cfg) : Nat → Expr → Env → Heap → Res
       | .ok (some (x, y), ρ2, h2) =>
         match addItems x y with
         | some r => .ok ([r], ρ2, h2)
-        | none => .error .type
+        | none => .error (.type, ρ2, h2)
     | .sub a b =>
       match operands (eval c n) a b ρ h with
       | .error e => .error e
@@ -327,7 +332,7 @@ def eval (c : Cfg) : Nat → Expr → Env → Heap → Res
       | .ok (some (x, y), ρ2, h2) =>
         match subItems c h2 x y with
         | some (r, h3) => .ok ([r], ρ2, h3)
-        | none => .error .type
+        | none => .error (.type, ρ2, h2)
     | .eq a b =>
       match eval c n a ρ h with
       | .error e => .error e
@@ -336,7 +341,7 @@ def eval (c : Cfg) : Nat → Expr → Env → Heap → Res
         | .error e => .error e
         | .ok (vb, ρ2, h2) =>
           match genEq va vb with
-          | .error e => .error e
+          | .error e => .error (e, ρ2, h2)
           | .ok r => .ok ([.bool r], ρ2, h2)
     | .dt l z => .ok ([.dtv l z], ρ, h)
     | .tzOf e =>
@@ -344,43 +349,44 @@ def eval (c : Cfg) : Nat → Expr → Env → Heap → Res
       | .error e => .error e
       | .ok (v, ρ1, h1) =>
         match tzItem h1 v with
-        | .error e => .error e
+        | .error e => .error (e, ρ1, h1)
         | .ok r => .ok (r, ρ1, h1)
     | .letE x e body =>
       -- context = copy(context); context.variables = context.variables.copy()
+      -- (an exception leaves the let with the caller's own dict untouched: `ρ`)
       match eval c n e ρ h with
-      | .error e => .error e
+      | .error (er, _, h1) => .error (er, ρ, h1)
       | .ok (v, ρc1, h1) =>
         match eval c n body ((x, v) :: ρc1) h1 with
-        | .error e => .error e
+        | .error (er, _, h2) => .error (er, ρ, h2)
         | .ok (r, _, h2) => .ok (r, ρ, h2)
     | .forE x r body =>
       match eval c n r ρ h with
-      | .error e => .error e
+      | .error (er, _, h1) => .error (er, ρ, h1)
       | .ok (vs, ρc1, h1) =>
         match forLoop (eval c n) x body vs ρc1 h1 with
-        | .error e => .error e
+        | .error (er, _, h2) => .error (er, ρ, h2)
         | .ok (res, _, h2) => .ok (res, ρ, h2)
     | .someE x r body =>
       match eval c n r ρ h with
-      | .error e => .error e
+      | .error (er, _, h1) => .error (er, ρ, h1)
       | .ok (vs, ρc1, h1) =>
         match quantLoop (eval c n) true x body vs ρc1 h1 with
-        | .error e => .error e
+        | .error (er, _, h2) => .error (er, ρ, h2)
         | .ok (b, _, h2) => .ok ([.bool b], ρ, h2)
     | .everyE x r body =>
       match eval c n r ρ h with
-      | .error e => .error e
+      | .error (er, _, h1) => .error (er, ρ, h1)
       | .ok (vs, ρc1, h1) =>
         match quantLoop (eval c n) false x body vs ρc1 h1 with
-        | .error e => .error e
+        | .error (er, _, h2) => .error (er, ρ, h2)
         | .ok (b, _, h2) => .ok ([.bool b], ρ, h2)
     | .fn ps body => .ok ([.fn ps body ρ], ρ, h)      -- a new item, variables = dict copy
     | .call0 f =>
       match eval c n f ρ h with
       | .error e => .error e
       | .ok ([.fn ps body cap], ρ1, h1) => applyFn (eval c n) c ps body cap [] ρ1 h1
-      | .ok _ => .error .type
+      | .ok (_, ρ1, h1) => .error (.type, ρ1, h1)
     | .call f a =>
       match eval c n f ρ h with
       | .error e => .error e
@@ -388,7 +394,7 @@ def eval (c : Cfg) : Nat → Expr → Env → Heap → Res
         match evalArgs (eval c n) (argToks a) ρ1 h1 with
         | .error e => .error e
         | .ok (vs, ρ2, h2) => applyFn (eval c n) c ps body cap vs ρ2 h2
-      | .ok _ => .error .type
+      | .ok (_, ρ1, h1) => .error (.type, ρ1, h1)
     | .durLit s => .ok ([.dur s], ρ, h)
     | .adjust1 e =>
       match eval c n e ρ h with
@@ -397,24 +403,24 @@ def eval (c : Cfg) : Nat → Expr → Env → Heap → Res
       | .ok ([x], ρ1, h1) =>
         match adjustItem c h1 x c.tz with
         | some (r, h2) => .ok ([r], ρ1, h2)
-        | none => .error .type
-      | .ok _ => .error .type
+        | none => .error (.type, ρ1, h1)
+      | .ok (_, ρ1, h1) => .error (.type, ρ1, h1)
     | .adjust2 e z =>
       match eval c n e ρ h with
       | .error e => .error e
       | .ok (v, ρ1, h1) =>
-        if v.length > 1 then .error .type else
+        if v.length > 1 then .error (.type, ρ1, h1) else
         match eval c n z ρ1 h1 with
         | .error e => .error e
         | .ok (vz, ρ2, h2) =>
           match targetOf vz with
-          | .error e => .error e
+          | .error e => .error (e, ρ2, h2)
           | .ok target =>
             match v with
             | [x] =>
               match adjustItem c h2 x target with
               | some (r, h3) => .ok ([r], ρ2, h3)
-              | none => .error .type
+              | none => .error (.type, ρ2, h2)
             | _ => .ok ([], ρ2, h2)
 
 /-! ### observations (what the caller can print) -/
@@ -450,7 +456,7 @@ inductive Out where
 
 def outOf : Res → Out
   | .ok (v, _, h) => .ok (obs h v)
-  | .error e => .err e
+  | .error e => .err e.1
 
 /-! ### histories: one parsed expression evaluated again and again; the caller's objects persist -/
 
@@ -458,8 +464,8 @@ structure Step where
   tz : Option Int
   ρ : Env
 
-/-- results of the successive evaluations and the caller's objects at the end.  (A failing
-evaluation is modelled as leaving the objects alone; the harness observes that.) -/
+/-- results of the successive evaluations and the caller's objects at the end; a failing
+evaluation hands on the objects as its partial evaluation left them -/
 def runHistory (q : Quirks) (n : Nat) (e : Expr) : List Step → Heap → List Out × Heap
   | [], h => ([], h)
   | s :: ss, h =>
@@ -467,8 +473,8 @@ def runHistory (q : Quirks) (n : Nat) (e : Expr) : List Step → Heap → List O
     | .ok (v, _, h') =>
       let r := runHistory q n e ss h'
       (.ok (obs h' v) :: r.1, r.2)
-    | .error er =>
-      let r := runHistory q n e ss h
+    | .error (er, _, h') =>
+      let r := runHistory q n e ss h'
       (.err er :: r.1, r.2)
 
 end EPV.Scope
